@@ -430,6 +430,12 @@ class Ctx:
             if e[0] == 'this':
                 return self.selfname
             return self.em(e)
+        while e[0] == 'paren':
+            e = e[1]
+        if e[0] == 'ternary':
+            # address of `c ? a : b` (a conditional lvalue): distribute the address-of
+            self.fire('ternary_lvalue')
+            return '(%s ? %s : %s)' % (self.em(e[1]), self.em_addr(e[2]), self.em_addr(e[3]))
         s = self.em(e)
         m = re.match(r'^\(\*(\w+)\)$', s)
         if m:
@@ -887,6 +893,9 @@ class Ctx:
                 return v + '.data'
             if m in ('clear', 'push_back', 'emplace_back', 'resize', 'reserve', 'insert', 'shrink_to_fit', 'pop_back'):
                 fn = 'vec_%s_%s' % (el, m)
+                if m == 'resize' and getattr(self, 'local_vectors_grow', False):
+                    fn = 'vec_%s_resize_any' % el     # unit option: resize of local vectors may grow (see pgmv.h)
+                    self.fire('resize_may_grow')
                 self.count_call(fn)
                 args = [self.em_addr(obj, arrow)]
                 if m == 'emplace_back' and len(a) != 1:
